@@ -144,9 +144,10 @@ def _expr(node, st):
         inner = expr(node.operand, st, P_UNARY)
         return '-' + (' ' if inner.startswith('-') else '') + inner
     if isinstance(node, ast.Attribute):
-        return expr(node.operand, st, P_PRIMARY) + '.' + st.ident(node.name)
+        # the operand of an attribute / subscript is a primary: the grammar allows no parentheses there
+        return _expr(node.operand, st) + '.' + st.ident(node.name)
     if isinstance(node, ast.Subscript):
-        return expr(node.operand, st, P_PRIMARY) + '[' + literal(node.key, st) + ']'
+        return _expr(node.operand, st) + '[' + literal(node.key, st) + ']'
     if isinstance(node, ast.Function):
         args = ', '.join('*' if isinstance(o, ast.Asterisk) else expr(o, Style(False, st.kwcase, st.sep, st.idcase))
                          for o in node.operands)
